@@ -129,6 +129,15 @@ func init() {
 	}
 	addRules("C21", "R-CAPACITY-AGREE")
 	addRules("C19", "R-NEWEST")
+	reg("R-META-THROUGH", "On the commit path every store into DB.bucketMetas has a write of the bucket meta file on every path before it, or on every path from it to a successful return, in the same function (the cache is written through, not flushed later).", ruleMetaThrough)
+	for _, id := range []string{"C18", "C08", "C10", "C02"} {
+		addRules(id, "R-META-THROUGH")
+	}
+	addRules("C02", "R-STATUS-USE")
+	reg("R-DESCENT", "Every comparison of the searched key with Keys[i] made while the current node is known not to be a leaf (in-memory FindLeaf, on-disk FindLeafOnDisk, FindTxIDOnDisk), evaluated for key == separator, takes the branch that advances the child index: descents agree with the split, which copies the first key of the right node up.", ruleDescent)
+	for _, id := range []string{"C01", "C02", "C10", "C12"} {
+		addRules(id, "R-DESCENT")
+	}
 	reg("R-MEMBER-NEG", "The membership predicates of ds/set (methods of *Set whose first result is a bool) return false only on a path on which one of their map lookups missed or the looked-up map is empty.", ruleMemberNeg)
 	addRules("C06", "R-MEMBER-NEG")
 	addRules("C16", "R-MERGE-PRESERVE")
